@@ -21,7 +21,7 @@ PATS = ["wl", "wl/*", "/", "wl/svc", "wl/svc*", "wl/*/a", "wl/app,wl/db", "other
 
 
 def cases(seed, tier):
-    n = 400 if tier == "quick" else 6000
+    n = 1000 if tier == "quick" else 6000
     rng = random.Random(seed * 1000003 + 7)
     for i in range(n):
         cid = "C07-%d-%d" % (seed, i)
